@@ -3,11 +3,11 @@
 pub mod alloc;
 pub mod drv;
 pub mod ev;
-pub mod exec;
+pub use vsim::exec;
 pub mod frames;
 pub mod idl;
 pub mod rx;
-pub mod sim;
+pub use vsim::sim;
 pub mod srv;
 pub mod srvgen;
 pub mod tx;
